@@ -247,7 +247,8 @@ def _get_bin_specs(h):
     :rtype: list
     """
     bin_specs = []
-    if isinstance(h, Count):
+    if h is None or isinstance(h, Count):
+        # Count, or below a leaf aggregator (Sum, Average, Minimize, Bag, ...): nothing further to describe
         return bin_specs
 
     if isinstance(h, Categorize):
